@@ -84,15 +84,21 @@ def known_meta(msg):
 CHANGED_LATER = b'<<a yielded message object no longer holds the bytes it held when it was yielded>>'
 
 
-def collect(gen, cap):
+def collect(gen, cap, consumer=None):
     """the bytes of every yielded message, read when it is yielded; the message objects are kept, as a caller collecting the
-    messages of a file would keep them, and must still hold the same bytes when the scan is over"""
+    messages of a file would keep them, and must still hold the same bytes when the scan is over.
+    consumer='envelope' / 'release': a delivered piece belongs to the consumer - he wraps its bytes into a bulletin of his own
+    or drops them before asking for the next piece; what the scan delivers next is not his business and must not depend on it"""
     out = []
     held = []
     for m in itertools.islice(gen, cap + 1):
         out.append(m.serialized_bytes)
         held.append(m)
-    if len(set(id(m) for m in held)) != len(held) or [m.serialized_bytes for m in held] != out:
+        if consumer == 'envelope':
+            m.serialized_bytes = b'\x01\r\r\n042\r\r\nIUXX01 XXXX 010000\r\r\n' + out[-1] + b'\r\r\n\x03'
+        elif consumer == 'release':
+            m.serialized_bytes = None
+    if consumer is None and (len(set(id(m) for m in held)) != len(held) or [m.serialized_bytes for m in held] != out):
         out.append(CHANGED_LATER)
     return out
 
@@ -175,7 +181,7 @@ def run_stream(ctx, dec, msgs, stream, seps, spec_base, probe=False):
 
 
     # non-default options that must not change what a stream of valid messages yields
-    OPTS = [dict(ignore_value_expectation=True), dict(wire_template_data=False), dict(continue_on_error=True),
+    OPTS = [{}, dict(ignore_value_expectation=True), dict(wire_template_data=False), dict(continue_on_error=True),
             dict(ignore_value_expectation=True, wire_template_data=False), dict(ignore_value_expectation=True, continue_on_error=True)]
     for opts in ctx.rng.sample(OPTS, 2 if ctx.quick else 4):
         for info_only in (False, True):
@@ -186,19 +192,142 @@ def run_stream(ctx, dec, msgs, stream, seps, spec_base, probe=False):
                     want = [m.bytes for m, me in zip(msgs, metas) if truth(me)]
                 else:
                     expr, want = None, want_all
-                oname = '+'.join(sorted(opts))
+                oname = '+'.join(sorted(opts)) or 'default'
                 spec = dict(spec_base, mode=mode, filter=expr, options=opts, stream_hex=stream.hex(), n_messages=len(msgs))
                 ctx.evaluated((stream.hex(), mode, expr, oname), nontrivial)
                 ctx.count('option_variant_scans')
                 ctx.add('option_variants', oname)
+                consumer = ctx.rng.choice([None, None, 'envelope', 'release'])
+                if consumer:
+                    oname += '+consumer-' + consumer
+                    ctx.count('scans_with_a_consumer_that_edits_delivered_pieces')
                 try:
-                    got = collect(generate_bufr_message(dec, stream, info_only=info_only, filter_expr=expr, **opts), cap)
+                    got = collect(generate_bufr_message(dec, stream, info_only=info_only, filter_expr=expr, **opts), cap, consumer)
                 except Exception as e:
                     ctx.violate('option-scan-raises:%s/%s/%s%s' % (type(e).__name__, mode, oname, '/filter' if use_filter else ''),
                                 'scanning valid messages with %r%s raised %s: %s' % (opts, ' and a filter' if use_filter else '',
                                                                                    type(e).__name__, str(e)[:120]), spec, exc=e)
                     continue
                 check_yields(ctx, got, want, stream, cap, spec, 'options/%s/%s%s' % (oname, mode, '/filter' if use_filter else ''))
+
+
+def interleaved(ctx, decs, parts, spec_base):
+    """Several scans under way at the same time.  `parts` = [(msgs, stream, kwargs, want)].  The generators are advanced under a
+    random schedule (one shared Decoder, or one each), some are abandoned half-way (closed, or just dropped) and a nested full
+    scan of another stream is run from inside the loop body of a running one.  Exactly-once / order oracle per stream: what a
+    generator yielded up to the point where it was left is the prefix of its own expected list, whatever the others did."""
+    from pybufrkit.decoder import generate_bufr_message
+    rng = ctx.rng
+    gens = []
+    for i, (msgs, stream, kw, want) in enumerate(parts):
+        dec = decs[i % len(decs)]
+        gens.append(dict(i=i, gen=generate_bufr_message(dec, stream, **kw), got=[], held=[], want=want, stream=stream, kw=kw,
+                         stop_after=(rng.randrange(len(want) + 1) if rng.random() < 0.35 else None), done=False, dec=dec))
+    schedule = []
+    live = list(gens)
+    steps = 0
+    while live and steps < 400:
+        steps += 1
+        g = rng.choice(live)
+        schedule.append(g['i'])
+        if g['stop_after'] is not None and len(g['got']) >= g['stop_after']:
+            # abandoned half-way: closed explicitly or simply dropped
+            if rng.random() < 0.5:
+                try:
+                    g['gen'].close()
+                except Exception as e:
+                    ctx.violate('interleaved/close-raises:%s' % type(e).__name__, 'closing a scan that was left half-way raised %r' % (e,),
+                                dict(spec_base, schedule=schedule[:80]), exc=e)
+            g['gen'] = None
+            g['abandoned'] = True
+            live.remove(g)
+            ctx.count('scans_abandoned_half_way')
+            continue
+        try:
+            m = next(g['gen'])
+        except StopIteration:
+            g['done'] = True
+            live.remove(g)
+            continue
+        except Exception as e:
+            ctx.violate('interleaved/scan-raises:%s' % type(e).__name__, 'a scan of valid messages advanced alternately with %d other scans raised %s: %s'
+                        % (len(parts) - 1, type(e).__name__, str(e)[:120]), dict(spec_base, schedule=schedule[:80], stream_hex=g['stream'].hex(), options=g['kw']), exc=e)
+            live.remove(g)
+            g['failed'] = True
+            continue
+        g['got'].append(m.serialized_bytes)
+        g['held'].append(m)
+        if rng.random() < 0.15:
+            # a complete scan of another stream from inside the loop body of this one, on this one's decoder
+            o = rng.choice(parts)
+            try:
+                inner = collect(generate_bufr_message(g['dec'], o[1], **o[2]), len(o[1]) // 12 + 2)
+            except Exception as e:
+                inner = ['raises %s' % type(e).__name__]
+            ctx.count('nested_scans')
+            schedule.append('n')
+            if inner != o[3]:
+                ctx.violate('interleaved/nested-scan-differs', 'a complete scan started from inside the loop body of a running scan yielded %d messages '
+                            '(lengths %r), the stream holds %d' % (len(inner), [len(x) for x in inner][:8], len(o[3])),
+                            dict(spec_base, schedule=schedule[:80], stream_hex=o[1].hex(), options=o[2]))
+    ctx.add('interleaving_schedules', ''.join(str(x) for x in schedule)[:60])
+    for g in gens:
+        if g.get('failed'):
+            continue
+        ctx.count('interleaved_scans')
+        spec = dict(spec_base, schedule=schedule[:80], stream_hex=g['stream'].hex(), options=g['kw'], n_scans=len(parts))
+        ctx.evaluated((g['stream'].hex(), repr(sorted(g['kw'].items())), tuple(schedule)), True)
+        want = g['want'] if g['done'] else g['want'][:len(g['got'])]
+        got = list(g['got'])
+        if [m.serialized_bytes for m in g['held']] != got or len(set(id(m) for m in g['held'])) != len(g['held']):
+            got.append(CHANGED_LATER)
+        check_yields(ctx, got, want, g['stream'], len(g['stream']) // 12 + 2, spec,
+                     'interleaved/' + ('finished' if g['done'] else 'left-half-way'))
+    # after everything that was left half-way: the same decoders scan every stream from start to end
+    for i, (msgs, stream, kw, want) in enumerate(parts):
+        try:
+            got = collect(generate_bufr_message(decs[i % len(decs)], stream, **kw), len(stream) // 12 + 2)
+        except Exception as e:
+            ctx.violate('interleaved/scan-after-abandoned-scans-raises:%s' % type(e).__name__, 'a scan after scans that were left half-way raised %r' % (e,),
+                        dict(spec_base, schedule=schedule[:80], stream_hex=stream.hex(), options=kw), exc=e)
+            continue
+        ctx.count('scans_after_abandoned_scans')
+        check_yields(ctx, got, want, stream, len(stream) // 12 + 2, dict(spec_base, schedule=schedule[:80], stream_hex=stream.hex(), options=kw),
+                     'interleaved/after-abandoned-scans')
+
+
+def interleaved_block(ctx, dec, k):
+    """build 2-4 streams with options of their own and run them interleaved: once on ONE shared decoder, once on a decoder each"""
+    from pybufrkit.decoder import Decoder
+    rng = ctx.rng
+    parts = []
+    for _ in range(rng.choice([2, 2, 3, 4])):
+        msgs = []
+        for _ in range(rng.choice([1, 2, 3, 3, 4, 5])):
+            k += 1
+            msgs.append(streams.make_message(rng, k, hostile=1.0 if rng.random() < 0.2 else 0.0))
+        stream, used = streams.join(msgs, rng)
+        metas = [known_meta(m) for m in msgs]
+        kw = {}
+        want = [m.bytes for m in msgs]
+        if rng.random() < 0.5:
+            kw['info_only'] = True
+        if rng.random() < 0.5:
+            expr, truth = FILTERS[rng.randrange(len(FILTERS))]
+            kw['filter_expr'] = expr
+            want = [m.bytes for m, me in zip(msgs, metas) if truth(me)]
+        if rng.random() < 0.3:
+            kw.update(rng.choice([dict(ignore_value_expectation=True), dict(wire_template_data=False), dict(continue_on_error=True)]))
+        parts.append((msgs, stream, kw, want))
+    if rng.random() < 0.3:
+        parts.append(parts[0][:2] + (dict(parts[-1][2]), None))           # the same stream scanned twice at the same time, other options
+        msgs, stream, kw, _ = parts[-1]
+        metas = [known_meta(m) for m in msgs]
+        truth = dict(FILTERS).get(kw.get('filter_expr'), lambda me: True)
+        parts[-1] = (msgs, stream, kw, [m.bytes for m, me in zip(msgs, metas) if truth(me)])
+    interleaved(ctx, [dec], parts, dict(origin='interleaved-scans', decoders='one shared'))
+    interleaved(ctx, [Decoder(), Decoder()], parts, dict(origin='interleaved-scans', decoders='one each'))
+    return k
 
 
 def split_files(ctx, msgs, stream, scratch, tag, spec):
@@ -357,9 +486,13 @@ def run(ctx):
             ctx.count('inner_message_streams')
             ctx.count('hostile_payload_messages')
             run_stream(ctx, dec, msgs, stream, used, dict(origin='inner-message', hostile=True), probe=(j == 0))
+        for _ in range(6 if ctx.quick else 60):
+            k = interleaved_block(ctx, dec, k)
         q = 0
         while q < QUOTA[ctx.tier] and ctx.more():
             q += 1
+            if q % 10 == 0:
+                k = interleaved_block(ctx, dec, k)
             n = rng.choice([0, 1, 2, 2, 3, 3, 4, 5, 6, 8])
             msgs = []
             hostile = False
